@@ -80,13 +80,15 @@ class Gen:
             if leaf:
                 if vs and self.chance(0.6):
                     return r.choice(vs)
-                return str(r.choice([0, 1, 2, 3, 5, 7, 10, 100]))
+                # negative literals too: truncating `/` and Euclidean `%` differ from their neighbours only on
+                # negative operands (seeded C05-2 swapped checked_div for checked_div_euclid)
+                return str(r.choice([0, 1, 2, 3, 5, 7, 10, 100, -1, -7, -9]))
             k = r.randrange(10)
             if k < 4:
                 op = r.choice(["+", "-", "*", "+", "-", "%", "/"])
                 rhs = self.expr(INT, depth + 1)
                 if op in ("/", "%") and self.chance(0.9):
-                    rhs = str(r.choice([1, 2, 3, 7]))
+                    rhs = str(r.choice([1, 2, 3, 7, -2, -3]))
                 self.f("binop")
                 return "(%s %s %s)" % (self.expr(INT, depth + 1), op, rhs)
             if k == 4 and [fn for fn in self.funs if fn[2] == INT]:
